@@ -167,6 +167,49 @@ def body(chk):
                     chk.paths_clean('vector<%s>:%s:%s:n=%d:no-memory-event' % (scalar, name, vname, n), bad, key='vector:%s' % name, family='vector-events',
                                     replay=vg_replay(chk, ['masa_init<Scalar>("a","%s"); std::vector<Scalar> a(%d,(Scalar)0.5), o; masa_set_vec<Scalar>("%s",a); masa_get_vec<Scalar>("%s",o);' % (name, n, vname, vname)],
                                                      'vector parameter of length %d' % n, scalar))
+    # ---- 6b. vector solutions: every combination of vector lengths in {0,1,2} (symbolic contents), then every evaluator:
+    #          a solution must either refuse (documented -1 / warning) or stay inside its vectors
+    import itertools
+    for scalar in ('double', 'long double'):
+        fs = 8 if scalar == 'double' else 16
+        apis = c15.api_list(w, scalar)
+        for name in ('radiation_integrated_intensity', 'cp_normal'):
+            v = pde.RegView(chk, w, name, scalar)
+            vnames = sorted(v.sol['vecs'])
+            lens = (0, 1, 2)
+            for combo in itertools.product(lens, repeat=len(vnames)):
+                st = v.st.clone()
+                for vn, n in zip(vnames, combo):
+                    a = v.sol['vecs'][vn][1]
+                    vv = st.side_mut((a.rid, a.off))
+                    vv.n = n
+                    st.mut(vv.buf).size = n * vv.es
+                    for i in range(n):
+                        st.mem[(vv.buf, i * vv.es)] = (vv.es, tm.sym('%s[%d]' % (vn, i)))
+                for cap in CAPS.get(name, []):
+                    meth, sig = cap[:-1].split('(')
+                    cands = [(fn_, api, sg) for fn_, api, sg in apis if A.virtual_of(api) == meth and sg == sig]
+                    if not cands:
+                        continue
+                    fn_, api, sg = cands[0]
+                    if sg == 'int':
+                        continue
+                    args = c15.sym_args(sg)
+                    try:
+                        paths = w.ex.explore(st, lambda e: e.call(fn_, list(args)), 64)
+                    except UnwindBound:
+                        skipped += 1
+                        continue
+                    bad = [pc_term(p['pc']) for p in paths if bad_events(p) or (p['error'] is not None and not isinstance(p['error'], UnwindBound))]
+                    why = ''
+                    for p in paths:
+                        if bad_events(p) or p['error'] is not None:
+                            why = str(bad_events(p)[:1] or p['error'])[:200]
+                    setup = ' '.join('{ std::vector<Scalar> t_(%d,(Scalar)0.5); masa_set_vec<Scalar>("%s",t_); }' % (n + (38 if n else 0), vn) for vn, n in zip(vnames, combo))
+                    call = '%s<Scalar>(%s)' % (api, ','.join('(Scalar)0.37' for q in sg.split(',') if q))
+                    chk.paths_clean('vector-lengths<%s>:%s:%s=%s:%s:no-memory-event' % (scalar, name, ','.join(vnames), combo, api), bad, key='vector-lengths:%s:%s' % (name, api), family='vector-length-combinations',
+                                    sample=dict(obligation='lengths %r then %s' % (dict(zip(vnames, combo)), api), why=why),
+                                    replay=vg_replay(chk, ['masa_init<Scalar>("a","%s"); %s volatile Scalar r = %s;' % (name, setup, call)], 'vector lengths %r then %s: %s' % (dict(zip(vnames, combo)), api, why), scalar))
     # ---- 7. C array interface through the real callee, lengths 0..n
     v = pde.RegView(chk, w, 'cp_normal', 'double')
     ex = w.ex
